@@ -199,3 +199,128 @@ Fixpoint run_hist {R} (ctx : kv) (h : list (hop R)) : hres R :=
 
 Definition is_deliver {R} (o : hop R) : bool := match o with HDeliver _ _ => true | _ => false end.
 Definition hop_commit_free {R} (o : hop R) : Prop := match o with HQuery p => commit_free p | _ => True end.
+
+(* ------------------------------------------------------------------ tracing a transaction of a block *)
+
+(* x/evm/keeper/grpc_query.go TraceTx / TraceBlock against the block they re-execute.
+   [apply s t] is ApplyMessageWithConfig(ctx, msg, tracer, commit=true, ...) on the context the query owns:
+   None = a consensus ("core") error of the state transition (nonce too high / too low, intrinsic gas, funds for
+   the transfer, creation disabled ...): the context is untouched; Some (s', r) = executed -- whether the EVM
+   succeeded, reverted or ran out of gas is part of r -- and committed to the context (sender nonce + 1 included). *)
+Section TraceModel.
+  Context {St T R : Type}.
+  Variable apply : St -> T -> option (St * R).
+
+  (* TraceTx, predecessor loop:  rsp, err := ApplyMessageWithConfig(ctx, msg, NoOpTracer, true, ...);
+     if err != nil { continue }   ("TODO: simulate failed tx as this is possible") *)
+  Fixpoint replay (s : St) (preds : list T) : St :=
+    match preds with
+    | [] => s
+    | t :: r => match apply s t with
+                | Some (s', _) => replay s' r
+                | None => replay s r
+                end
+    end.
+
+  (* ... then traceTx(ctx, ..., commitMessage=false) of the requested message: an error is the answer *)
+  Definition trace_tx (s : St) (preds : list T) (t : T) : option R :=
+    option_map snd (apply (replay s preds) t).
+
+  (* TraceBlock: traceTx(ctx, ..., commitMessage=true) for every transaction; an error is recorded for that
+     transaction and the context is left as it was *)
+  Fixpoint trace_block (s : St) (txs : list T) : list (option R) :=
+    match txs with
+    | [] => []
+    | t :: r => match apply s t with
+                | Some (s', x) => Some x :: trace_block s' r
+                | None => None :: trace_block s r
+                end
+    end.
+
+  (* a variant that also leaves out predecessors whose EVM execution failed (not the code: refuted below) *)
+  Variable vm_failed : R -> bool.
+  Fixpoint replay_dropping_failed (s : St) (preds : list T) : St :=
+    match preds with
+    | [] => s
+    | t :: r => match apply s t with
+                | Some (s', x) => if vm_failed x then replay_dropping_failed s r else replay_dropping_failed s' r
+                | None => replay_dropping_failed s r
+                end
+    end.
+  Definition trace_tx_dropping_failed (s : St) (preds : list T) (t : T) : option R :=
+    option_map snd (apply (replay_dropping_failed s preds) t).
+
+  (* The block itself (baseapp runTx): the deliver-mode ante handler admits or refuses the transaction
+     (refused: nothing happens); admitted: fee moved to the collector and sequence + 1 (12_increment_sequence.go);
+     the msg server (x/evm/keeper/msg_server.go EthereumTx) takes the sequence back and runs the state transition
+     on that state [pre_fx s t]; executed: committed plus the refund bookkeeping [post_fx]; refused with a core
+     error: the message branch is dropped and what the ante handler did stays [core_fx s t]: the nonce IS consumed. *)
+  Inductive bout := BkAnte | BkCore | BkExec (r : R).
+  Variable admitted : St -> T -> bool.
+  Variable pre_fx : St -> T -> St.
+  Variable post_fx : St -> T -> R -> St.
+  Variable core_fx : St -> T -> St.
+
+  Definition block_step (s : St) (t : T) : St * bout :=
+    if admitted s t then
+      match apply (pre_fx s t) t with
+      | Some (s', r) => (post_fx s' t r, BkExec r)
+      | None => (core_fx s t, BkCore)
+      end
+    else (s, BkAnte).
+
+  Fixpoint block_run (s : St) (txs : list T) : St * list bout :=
+    match txs with
+    | [] => (s, [])
+    | t :: r => let '(s1, o) := block_step s t in
+                let '(s2, os) := block_run s1 r in (s2, o :: os)
+    end.
+
+  (* a replay that is told what the block did with each predecessor and keeps the effects of the refused ones *)
+  Fixpoint replay_with_outcomes (s : St) (preds : list (T * bout)) : St :=
+    match preds with
+    | [] => s
+    | (t, BkExec _) :: r => match apply s t with
+                            | Some (s', _) => replay_with_outcomes s' r
+                            | None => replay_with_outcomes s r
+                            end
+    | (t, BkCore) :: r => replay_with_outcomes (core_fx s t) r
+    | (t, BkAnte) :: r => replay_with_outcomes s r
+    end.
+  Definition trace_tx_with_outcomes (s : St) (preds : list (T * bout)) (t : T) : option R :=
+    option_map snd (apply (replay_with_outcomes s preds) t).
+End TraceModel.
+Arguments BkAnte {R}.
+Arguments BkCore {R}.
+Arguments BkExec {R} r.
+
+(* the nonce skeleton of a block: who sent each transaction, with which nonce, and what the block did with it *)
+Inductive bclass :=
+| BExec (vm_failed : bool)   (* executed (code 0); the EVM failed or not *)
+| BCore                      (* admitted by the ante handler, refused by the state transition for a reason that
+                                does not depend on the nonce (intrinsic gas, funds for the transfer) *)
+| BAnte.                     (* refused by the ante handler *)
+Record btx := mkBtx { b_sender : N; b_nonce : N; b_class : bclass }.
+
+Definition nmap := list (N * N).     (* sender -> account nonce *)
+Fixpoint nm_get (m : nmap) (a : N) : N :=
+  match m with
+  | [] => 0
+  | (b, n) :: r => if b =? a then n else nm_get r a
+  end.
+Fixpoint nm_bump (m : nmap) (a : N) : nmap :=
+  match m with
+  | [] => [(a, 1)]
+  | (b, n) :: r => if b =? a then (b, n + 1) :: r else (b, n) :: nm_bump r a
+  end.
+
+(* ApplyMessageWithConfig seen through nonces: preCheck compares the account nonce with the transaction's *)
+Definition skel_apply (m : nmap) (t : btx) : option (nmap * bool) :=
+  match b_class t with
+  | BExec f => if nm_get m (b_sender t) =? b_nonce t then Some (nm_bump m (b_sender t), f) else None
+  | _ => None
+  end.
+Definition skel_admitted (m : nmap) (t : btx) : bool :=
+  match b_class t with BAnte => false | _ => nm_get m (b_sender t) =? b_nonce t end.
+Definition skel_block_run : nmap -> list btx -> nmap * list bout :=
+  block_run skel_apply skel_admitted (fun m _ => m) (fun m _ _ => m) (fun m t => nm_bump m (b_sender t)).
